@@ -7,6 +7,7 @@ import (
 	"os"
 	"testing"
 	"time"
+	"verif/simkit"
 )
 
 var (
@@ -34,6 +35,11 @@ func RunSim(t *testing.T) {
 		os.Exit(2)
 	}
 	startWatchdog(*flagWall, *flagOut)
+	simkit.ProgressHook = c20Tick
+	if *flagProp != "C20" {
+		// (C20 starts its own, with its plan)
+		startStallObserver(*flagProp, *flagSeed, stallPlanJSON, *flagOut, 12*time.Second, make(chan struct{}))
+	}
 	var plan []byte
 	if *flagPlan != "" {
 		b, err := os.ReadFile(*flagPlan)
